@@ -213,59 +213,69 @@ def check_fresh(ctx, P, R, tag=""):
     if R is None:
         o.fail("no template to compare with", site=f.loc, construct="fresh layout")
         return
-    # the sequence of decrements of ctx_stack_pointer, in CFG order along the success path
-    seq = []
-    decs = [n for n in f.nodes if n.k == "UnaryOperator" and n.op == "--" and not n.postfix and is_field(f.key(n.kids[0]), CTX, "ctx_stack_pointer")]
-    decs.sort(key=lambda n: (f.cfgpos(n)[0] * -1, f.cfgpos(n)[1]) if False else n.line * 1000 + n.col)
+    # Concrete-address simulation of the stack-pointer arithmetic for several (base, size) pairs, including sizes that
+    # are not multiples of 16: which value is stored at which address, and where does the saved stack pointer end up?
+    evs = []   # ordered events: ('assign', node, rhs) | ('dec', node) | ('store', node, value)
+    for n in f.nodes:
+        if n.k == "UnaryOperator" and n.op == "--" and is_field(f.key(n.kids[0]), CTX, "ctx_stack_pointer"):
+            p = n.parent
+            while p is not None and p.k == "ParenExpr":
+                p = p.parent
+            if p is not None and p.k == "UnaryOperator" and p.op == "*" and p.parent is not None and p.parent.k == "BinaryOperator" and p.parent.op == "=":
+                evs.append(("store", n, p.parent.kids[1]))
+            else:
+                evs.append(("dec", n, None))
+        elif n.k == "BinaryOperator" and n.op == "=" and is_field(f.key(n.kids[0]), CTX, "ctx_stack_pointer") and strip(n.kids[0]).k == "MemberExpr":
+            evs.append(("assign", n, n.kids[1]))
     order = []
-    # order by dominance: a decrement d1 precedes d2 if d1 dominates d2
-    rest = list(decs)
+    rest = list(evs)
     while rest:
-        firsts = [d for d in rest if all(f.find_path("entry", lambda n, d=d: n is d, barrier=lambda n, e=e: n is e) is not None for e in rest if e is not d)]
+        firsts = [e for e in rest if all(f.find_path("entry", lambda n, e=e: n is e[1], barrier=lambda n, x=x: n is x[1]) is not None for x in rest if x is not e)]
         if len(firsts) != 1:
-            raise AnalysisBroken("fiber_context_init: decrements are not totally ordered")
+            raise AnalysisBroken("fiber_context_init: stack-pointer operations are not totally ordered")
         order.append(firsts[0])
         rest.remove(firsts[0])
-    for d in order:
-        p = d.parent
-        while p is not None and p.k == "ParenExpr":
-            p = p.parent
-        if p is not None and p.k == "UnaryOperator" and p.op == "*":
-            asg = p.parent
-            if asg is not None and asg.k == "BinaryOperator" and asg.op == "=":
-                v = strip(asg.kids[1])
-                if v.k == "DeclRefExpr" and v.dk == "param":
-                    seq.append(("param", v.name))
-                elif v.cv is not None:
-                    seq.append(("const", v.cv))
-                else:
-                    seq.append(("?", v.text))
-                continue
-        seq.append(("filler", None))
+    decs = [e[1] for e in evs if e[0] in ("dec", "store")]
     bad = None
     npop = len(R["pops"])
-    want = [("filler", None), ("param", "param"), ("const", 0), ("param", "run_function")] + [("const", 0)] * npop
-    if seq != want:
-        bad = "layout stores %s, the template needs %s" % (seq, want)
-    else:
-        loads = {e[3]: e[2] for e in R["events"] if e[0] == "load"}
-        off = {}
-        for i, s in enumerate(reversed(seq)):
-            off.setdefault(s, 8 * i)
-        rip_off = 8 * (len(seq) - 1 - seq.index(("param", "run_function")))
-        arg_off = 8 * (len(seq) - 1 - seq.index(("param", "param")))
-        if loads.get("rcx") != rip_off:
-            bad = "the entry function is stored at offset %d but the template loads the resume address from %s" % (rip_off, loads.get("rcx"))
-        if loads.get("rdi") != arg_off:
-            bad = bad or "the argument is stored at offset %d but the template loads rdi from %s" % (arg_off, loads.get("rdi"))
-        if len(seq) % 2 != 0:
-            bad = bad or "an odd number of slots below the aligned top: the saved stack pointer is not 16-aligned"
-        if ((8 * (npop + 1)) % 16) != 8:
-            bad = bad or "the entry function starts with rsp = %d (mod 16)" % ((8 * (npop + 1)) % 16)
+    loads = {e[3]: e[2] for e in R["events"] if e[0] == "load"}
+    is_sp = lambda n: n.k == "ImplicitCastExpr" and n.ck == "LValueToRValue" and strip(n).k == "MemberExpr" and strip(n).field == "ctx_stack_pointer"
+    is_base = lambda n: n.k == "ImplicitCastExpr" and n.ck == "LValueToRValue" and strip(n).k == "MemberExpr" and strip(n).field == "ctx_stack"
+    is_size = lambda n: n.k == "ImplicitCastExpr" and n.ck == "LValueToRValue" and strip(n).k == "MemberExpr" and strip(n).field == "ctx_stack_size"
+    TAG = {"param": 0xA11, "run_function": 0xF00}
+    for base, size in ((0x100000, 4096), (0x100000, 100008), (0x100010, 16385), (0x7f0000001008, 102400), (0x100000, 4046 * 26)):
+        sp = None
+        mem = {}
+        try:
+            for kind, node, val in order:
+                atom = atom_from([(is_sp, sp if sp is not None else 0), (is_base, base), (is_size, size)])
+                if kind == "assign":
+                    sp = ev(f, val, atom) & ((1 << 64) - 1)
+                elif kind == "dec":
+                    sp -= 8
+                else:
+                    sp -= 8
+                    v = strip(val)
+                    mem[sp] = TAG.get(v.name) if v.k == "DeclRefExpr" and v.dk == "param" else (v.cv if v.cv is not None else "?")
+        except (Unevaluable, TypeError) as e:
+            raise AnalysisBroken("fiber_context_init: cannot simulate the layout (%s)" % e)
+        where = "stack [%#x, +%d)" % (base, size)
+        if sp is None or not mem:
+            bad = bad or "no layout is written"
+            break
+        if sp % 16 != 0:
+            bad = bad or "%s: the saved stack pointer %#x is not 16-byte aligned" % (where, sp)
+        if (sp + 8 * (npop + 1)) % 16 != 8:
+            bad = bad or "%s: the entry function starts with rsp = %d (mod 16), the ABI requires 8" % (where, (sp + 8 * (npop + 1)) % 16)
+        frame = [mem.get(sp + 8 * i) for i in range(npop + 3)]
+        want_frame = [0] * npop + [TAG["run_function"], 0, TAG["param"]]
+        if frame != want_frame:
+            bad = bad or "%s: frame (from the saved sp upwards) holds %s, the template needs %s (0xf00 = entry function, 0xa11 = argument)" % (where, frame, want_frame)
+        if loads.get("rcx") != 8 * npop or loads.get("rdi") != 8 * (npop + 2):
+            bad = bad or "the template loads rip from %s and the argument from %s; the layout puts them at %d and %d" % (loads.get("rcx"), loads.get("rdi"), 8 * npop, 8 * (npop + 2))
+        if min(mem) < base or max(mem) + 8 > base + size:
+            bad = bad or "%s: the frame is written outside the fiber's own stack" % where
     # alignment mask
-    masks = [n for n in f.nodes if n.k == "UnaryOperator" and n.op == "~" and strip(n.kids[0]).cv == 15]
-    if not masks:
-        bad = bad or "the stack top is not aligned to 16 bytes"
     # allocation first
     al = f.calls("fiber_context_alloc_stack")
     if not al or any(f.dominated_by(d, nodeset(al)) is not None for d in decs):
@@ -275,7 +285,7 @@ def check_fresh(ctx, P, R, tag=""):
         isal = nodeset(al)
         if reach(f, decs, atom_from([(isal, 0)])):
             bad = bad or "the layout is written although the allocation failed"
-    o.check(bad is None, "%d slots" % len(seq), bad, site=f.loc, construct="fresh context layout")
+    o.check(bad is None, "5 (base,size) pairs simulated", bad, site=f.loc, construct="fresh context layout")
 
 
 def check_stack(ctx, P, strategy, tag=""):
